@@ -3759,4 +3759,71 @@ theorem C07_planted_document_timer_no_unit (env : Env) (pre post : List SegX) (t
   intro q hu
   simp only [c07f_missingUnitEvs, hu, Option.isNone_none, if_true]
 
+/-! non-vacuity: the document `>> source: grandma` / blank line / `Use @x{1/0} now` (every extension off).  The
+    hypotheses of `C07_planted_document` with the zero-denominator instance are decided; the conclusion, evaluated:
+    the report is exactly `division-by-zero` labelled 27..30 (the bytes of `1/0`), no output.  The same step with
+    `#pot{1%kg}` (`cookware-unit` on `%kg`, 30..33) and `~{5}` (`timer-missing-unit` at 27): the instances apply. -/
+def C07_xName : List Tok := [tk .word ['x']]
+def C07_xQ1 : List Tok := [tk .int ['1'], tk .slash ['/'], tk .int ['0']]
+def C07_xB1 : List Tok := c07p_comp (tk .at ['@']) [] C07_xName (tk .openBrace ['{']) C07_xQ1 (tk .closeBrace ['}'])
+def C07_xSpec1 : List Tok → List Tok → List Tok → List (Ev Rat) → Prop :=
+  c07x_ingrQtySpec C07_xName C07_xQ1 C07_zeroDenEvs (fun _ q => q.quantity.val.unit = none ∧ q.unitSep = none)
+def C07_xDoc1 : List (PlBlock Rat × List Tok) :=
+  plantedDoc toyCharSpec C07_dDocA [] C07_plPre' C07_plPost C07_xB1 [C01_nl] C07_xSpec1
+example : render ([] ++ plDocSpec C07_xDoc1) = ">> source: grandma\n\nUse @x{1/0} now\n".toList := by decide
+example : plantedOK C07_coreEnv.cs C07_coreEnv.ext C07_plPre' C07_plPost C07_xB1 = true := by decide
+example : WellSpelled toyCharSpec ([] ++ plDocSpec C07_xDoc1) := by decide
+example : parseFrontmatter toyCharSpec (render ([] ++ plDocSpec C07_xDoc1)) = none := by decide
+theorem C07_xShape1 : PlShape C07_coreEnv.ext .at (tk .at ['@']) [] C07_xName (tk .openBrace ['{']) C07_xQ1
+    (tk .closeBrace ['}']) (C07_plPost.flatMap SegX.spell) :=
+  ⟨rfl, Or.inl ⟨rfl, rfl⟩, by decide, rfl, by decide, rfl,
+   by intro t h; simp [C07_plPost, SegX.spell] at h; subst h; decide⟩
+theorem C07_xNameNB : ∃ t ∈ C07_xName, plainKind t.kind = true ∧ NBs toyCharSpec t.text :=
+  ⟨tk .word ['x'], by simp [C07_xName], rfl, 'x', by simp [tk], by decide⟩
+example : ((parseRecipe (α := Rat) C07_coreEnv (render ([] ++ plDocSpec C07_xDoc1))).diags.toList,
+      (parseRecipe (α := Rat) C07_coreEnv (render ([] ++ plDocSpec C07_xDoc1))).output.isSome) =
+    ([⟨.error, .parse, "division-by-zero", [⟨27, 30⟩]⟩], false) := by decide +kernel
+example : ∃ (T tpre tB tpost : List Tok) (evsB : List (Ev Rat)),
+    T <:+: lex toyCharSpec (render ([] ++ plDocSpec C07_xDoc1)) ∧ T = tpre ++ (tB ++ tpost) ∧
+    Spells tB C07_xB1 ∧ C07_xSpec1 T tpre tB evsB ∧
+    (parseRecipe (α := Rat) C07_coreEnv (render ([] ++ plDocSpec C07_xDoc1))).diags.toList.filter
+      (fun d => d.stage == .parse) = evDiags evsB := by
+  obtain ⟨T, tpre, tB, tpost, evsB, h1, h2, -, h4, -, h6, h7, -⟩ :=
+    C07_planted_document (α := Rat) C07_coreEnv [] C07_dDocA [] C07_plPre' C07_plPost C07_xB1 [C01_nl] C07_xSpec1
+      (by decide) (by decide) (by intro d h; cases h) (by decide)
+      (C07_planted_document_zero_denominator C07_coreEnv C07_plPre' C07_plPost _ C07_xName _ _ _ _ _ C07_xShape1
+        (Or.inl rfl) C07_xNameNB rfl rfl rfl (by decide) (by decide))
+      (by decide) (by decide) (by decide)
+  exact ⟨T, tpre, tB, tpost, evsB, h1, h2, h4, h6, h7⟩
+
+/-! `Use #pot{1%kg} now`, `Use ~{5} now` -/
+def C07_xPot : List Tok := [tk .word "pot".toList]
+def C07_xV1 : AVal := .num (.int ['1'])
+def C07_xV5 : AVal := .num (.int ['5'])
+def C07_xB2 : List Tok := c07p_comp (tk .hash ['#']) [] C07_xPot (tk .openBrace ['{'])
+  (spellVal C07_xV1 {} ++ tk .percent ['%'] :: [tk .word "kg".toList]) (tk .closeBrace ['}'])
+def C07_xB3 : List Tok := c07p_comp (tk .tilde ['~']) [] [] (tk .openBrace ['{']) [tk .int ['5']] (tk .closeBrace ['}'])
+example : plantedOK C07_coreEnv.cs C07_coreEnv.ext C07_plPre' C07_plPost C07_xB2 = true ∧
+    plantedOK C07_coreEnv.cs C07_coreEnv.ext C07_plPre' C07_plPost C07_xB3 = true := by decide
+theorem C07_xShape2 : PlShape C07_coreEnv.ext .hash (tk .hash ['#']) [] C07_xPot (tk .openBrace ['{'])
+    (spellVal C07_xV1 {} ++ tk .percent ['%'] :: [tk .word "kg".toList])
+    (tk .closeBrace ['}']) (C07_plPost.flatMap SegX.spell) :=
+  ⟨rfl, Or.inl ⟨rfl, rfl⟩, by decide, rfl, by decide, rfl,
+   by intro t h; simp [C07_plPost, SegX.spell] at h; subst h; decide⟩
+example := (C07_planted_document_cookware_unit (α := Rat) C07_coreEnv C07_plPre' C07_plPost _ C07_xPot _ _ C07_xV1 {}
+  (tk .percent ['%']) (tk .int ['1']) [tk .word "kg".toList] C07_xShape2 (Or.inl rfl)
+  ⟨tk .word "pot".toList, by simp [C07_xPot], rfl, 'p', by simp [tk], by decide⟩ (by decide) (by decide) rfl
+  (by intro h; cases h) (by decide) (by decide) (by decide) (by decide) rfl
+  ⟨tk .word "kg".toList, by simp, rfl, 'k', by simp [tk], by decide⟩).1
+theorem C07_xShape3 : PlShapeN C07_coreEnv.ext .tilde (tk .tilde ['~']) [] [] (tk .openBrace ['{']) [tk .int ['5']]
+    (tk .closeBrace ['}']) :=
+  ⟨rfl, Or.inl ⟨rfl, rfl⟩, (by intro t h; cases h), rfl, (by decide), rfl⟩
+example := (C07_planted_document_timer_no_unit (α := Rat) C07_coreEnv C07_plPre' C07_plPost _ [] [] _ _ C07_xV5 {}
+  (tk .int ['5']) [] C07_xShape3 (by decide) (by decide) rfl (by intro h; cases h) (by decide) (by decide)
+  (by decide) (by decide)).1
+example : (parseRecipe (α := Rat) C07_coreEnv ">> source: grandma\n\nUse #pot{1%kg} now\n".toList).diags.toList =
+    [⟨.error, .parse, "cookware-unit", [⟨30, 33⟩]⟩] := by decide +kernel
+example : (parseRecipe (α := Rat) C07_coreEnv ">> source: grandma\n\nUse ~{5} now\n".toList).diags.toList =
+    [⟨.error, .parse, "timer-missing-unit", [⟨27, 27⟩]⟩] := by decide +kernel
+
 end Cook
